@@ -33,7 +33,8 @@
 //!     numbers (never a wrong Some, never a Some when a fee exceeds u64);
 //!     None only when a fee exceeds u64 ("None if arithmetic overflow occurs");
 //!   * refund_fee(used) == limit - (ceil((min_gas+used)*price/factor)+tip) when that is
-//!     >= 0, else None — with min_gas+used taken exactly (not saturated);
+//!     >= 0, else None — with min_gas+used taken exactly (not saturated); when that sum
+//!     exceeds u64::MAX a None is accepted as well, a Some must still be the exact value;
 //!     consecutive ladder entries: refund non-increasing (None = nothing left, it may
 //!     not be followed by Some); refund <= limit;
 //!   * `Checked::into_ready(price, costs, fee_params, None)` is Ok iff the exact max fee
@@ -720,7 +721,9 @@ fn check_cfg(env: &Env, c: &Cfg, acc: &mut Acc, viol: &mut dyn FnMut(String, Str
             Some(_) => acc.hit("refund:Some(>0)"),
             None => acc.hit("refund:None"),
         }
-        if *got != exp {
+        // when min_gas+used leaves u64 the API may give up (None, "Return None if overflow occurs");
+        // a Some must still be the exact value
+        if *got != exp && !(overflow && got.is_none()) {
             let key = if overflow {
                 "C18:refund_fee:value:min_gas+used>u64::MAX"
             } else {
@@ -1004,7 +1007,8 @@ fn explore(ctx: &Ctx) {
             "which CheckError into_ready returns when it refuses (InsufficientMaxFee or BalanceOverflow)",
             "contents of Ready",
             "how min_gas/max_gas themselves are metered (only their order and the fees derived from them are checked)",
-            "into_ready for configurations that into_checked_basic refuses (witness limit below witness size)"
+            "into_ready for configurations that into_checked_basic refuses (witness limit below witness size)",
+            "refund_fee returning None when min_gas+used exceeds u64::MAX (a Some must still be the exact value)"
         ]),
     );
     ctx.set("grid_points", json!(n));
